@@ -13,7 +13,7 @@ TEXT = {
     "C02": {
         "level": "Machine-checked refinement theorem (every history, every message size, every growth step, every limit that is a multiple of it): the buffer-level send path "
                  "behaves exactly like an abstract queue of accepted frames - one write per non-empty flush holding bytes++[0] of each accepted message in order, nothing for an empty "
-                 "flush, nothing for a refused message; corollary: written stream ++ still-queued bytes = framing of the accepted messages. Tied to the code by ~3k/40k differential histories.",
+                 "flush, nothing for a refused message; corollary: written stream ++ still-queued bytes = framing of the accepted messages. Tied to the code by ~3.5k/40k differential histories, including histories that reach the hook-lowered size limit (a message refused for its body or only for its terminator, then further traffic).",
         "design_ref": "DESIGN.md §5 C02, §4.2", "note": TX_NOTE,
         "technique": "Lean 4 proof (data refinement to an abstract queue, loop invariant on capacity) on a hand-written model; model-vs-implementation correspondence run",
     },
@@ -36,7 +36,7 @@ TEXT = {
     },
     "C09": {
         "level": "Machine-checked non-interference: the refinement invariant is required of well-behaved connections only and NOTHING is assumed of the others (arbitrary bytes, closes at any point, write failures, arbitrary state), "
-                 "yet every loop iteration preserves it - so a healthy connection's replies are a function of its own calls. Differential fault-injection run (truncated frames, EOF mid-burst, read errors, write failure at write k, undecodable calls) with the server future required to stay pending.",
+                 "yet every loop iteration preserves it - so a healthy connection's replies are a function of its own calls. Differential fault-injection run (truncated frames, EOF mid-burst, read errors, write failure at write k, undecodable calls, long unterminated tails of 4.5..12 KB behind complete calls) with the server future required to stay pending.",
         "design_ref": "DESIGN.md §5 C09", "note": RX_NOTE + " Same server model as C08 with fault scripts (write-failure index, close/read-error events).",
         "technique": "Lean 4 proof (invariant guarded by a ghost `good` flag: obligations only for healthy connections); fault-injection correspondence run",
     },
@@ -56,14 +56,14 @@ TEXT = {
     "C11": {
         "level": "PARTIAL by necessity. Machine-checked on a model of the physical receive buffer (bytes are not cleared on cursor reset; growth = possible reallocation): the property's full statement is FALSE (counterexample: two replies in separate reads, first item held), "
                  "and the part that holds is proved (a receive that finds its frame already buffered touches neither bytes nor allocation, so items of replies that arrived together stay intact). "
-                 "The real chain reply stream is run with every item held while later ones are obtained, including all-buffered batches with one reply of 0.3..12 KiB (growth before the first item is yielded); the model predicts exactly which held &str change (1500/20000 cases, 0 disagreements).",
+                 "The real chain reply stream is run with every item held while later ones are obtained, including all-buffered batches with one reply of 0.3..12 KiB (growth before the first item is yielded) and read boundaries drawn over the bytes (a read ending inside a reply behind complete ones); the model predicts exactly which held &str change (1500/20000 cases, 0 disagreements).",
         "design_ref": "DESIGN.md §5 C11", "note": RX_NOTE + " Known finding: ReplyStream lets safe code keep a borrow of the receive buffer across later receives.",
         "technique": "Lean 4 proof (counterexample by kernel evaluation; frame-already-buffered lemma) on a physical-buffer model; correspondence run holding borrowed items across later receives",
     },
     "C12": {
         "level": "Machine-checked theorems over every method declaration and argument list of the model: the call is `<interface>.<rename or PascalCase(name)>`, `parameters` present exactly when parameters are declared, each argument under its wire name, None omitted, more/oneway exactly as annotated; "
                  "the chain_ and chain-extension generators produce the same frame as the plain one; reply mapping = the receive classification of C04 plus MissingParameters, so an `error` reply is never Ok(Ok(_)). "
-                 "A corpus of 60 (quick) / 600 (thorough) generated traits is compiled against the current macros on every run and every method exercised in all three forms.",
+                 "A corpus of 60 (quick) / 600 (thorough) generated traits is compiled against the current macros on every run and every method exercised in all three forms, the chain-extension form also behind first calls padded so that the appended call ends on / next to a growth step of the write buffer.",
         "design_ref": "DESIGN.md §5 C12", "note": "Trusted: Lean kernel; rustc + the proc-macro expansion (observed through the compiled corpus only); the Python corpus generator; serde derive semantics of the generated structs.",
         "technique": "Lean 4 proof (definitional properties of three separately mirrored generators) + compile-and-run correspondence over a generated trait corpus",
     },
@@ -87,14 +87,14 @@ TEXT = {
         "technique": 'Lean 4 proof (inductive grammar relation; induction on parser fuel with a type-size measure; lexer exactness by induction; mutual structural recursion on derivations) on a function-by-function port of the parser; model-vs-implementation correspondence with an independent oracle',
     },
     "C14": {
-        "level": 'Proof + correspondence. Machine-checked (unbounded): for every well-formed description without commented enum variants, parsing its Display text yields exactly the description and re-rendering reproduces the text, comments included (C14_parse_render, C14_render_fixpoint); the GetInterfaceDescription exchange - Display text through the JSON string escaping of the extracted table, read back by a JSON string reader, parsed - returns exactly the description (C14_exchange, with unescape(escape s) = s for every byte string). The excluded class is exactly the listed finding (a commented enum variant renders in a form the parser refuses; counterexample theorem). Renderer and parser models agree with Display / Interface::try_from byte for byte and tree for tree on 4k / 60k constructor-built descriptions, and the real exchange (send_reply -> proxy call -> parse) is predicted byte for byte on 1.5k / 20k descriptions whose comments carry quotes, backslashes, control characters and non-ASCII text.',
+        "level": 'Proof + correspondence. Machine-checked (unbounded): for every well-formed description without commented enum variants, parsing its Display text yields exactly the description and re-rendering reproduces the text, comments included (C14_parse_render, C14_render_fixpoint); the GetInterfaceDescription exchange - Display text through the JSON string escaping of the extracted table, read back by a JSON string reader, parsed - returns exactly the description (C14_exchange, with unescape(escape s) = s for every byte string). The excluded class is exactly the listed finding (a commented enum variant renders in a form the parser refuses; counterexample theorem). Renderer and parser models agree with Display / Interface::try_from byte for byte and tree for tree on 4k / 60k constructor-built descriptions, and the real exchange (send_reply -> proxy call -> parse) is predicted byte for byte on 1.5k / 20k descriptions whose comments carry quotes, backslashes, control characters and non-ASCII text; the interfaces assembled from the derive corpus of C16 (compiled against the current macros) are rendered, parsed and rendered again as well.',
         "design_ref": 'DESIGN.md §5 C14, §11.7', "note": "Trusted: as C13 plus the model of the Display impls; the JSON string reader is a model of the part of serde_json's string parser that zlink's escaping exercises (tied to serde_json by scenario idlx). Known findings: commented enum variants (custom and inline).",
         "technique": 'Lean 4 proof (parse∘render = id by induction on parser fuel; escape/unescape round trip over all 256 extracted table entries; counterexample by kernel evaluation) on renderer + parser models; round-trip correspondence runs through the public constructors and through the real exchange',
     },
     "C19": {
         "level": "PARTIAL. Machine-checked: the write-all loop hands the whole buffer to the pipe for every partial-write behaviour; composed with the C02 refinement and C01 framing theorem, for every message list, partial-write schedule, read-size schedule and growth step the peer's receives return exactly the messages sent, in order, then EOF; "
                  "ids from a counter are distinct; the cancellation clause is refuted on the model (a flush abandoned after a partial write makes the next send emit a frame never sent) and what does hold (nothing written => nothing corrupted) is proved. "
-                 "Real sockets: 32 (quick) / 300 (thorough) transfers up to 1 MiB in both directions on tokio and smol, bound and inherited-fd listeners with 1..8 connections, cancelled sends.",
+                 "Real sockets: 46 (quick) / 330 (thorough) transfers up to 1 MiB in both directions on tokio and smol (including lists whose wire sizes sit exactly on read-buffer sizes: 255/256/257 first, powers of two, multiples of the growth step, each followed by a small message), bound and inherited-fd listeners with 1..8 connections, cancelled sends.",
         "design_ref": "DESIGN.md §5 C19", "note": "Trusted: Lean kernel; kernel socket = byte FIFO with partial writes (assumption); runtime scheduling, fd inheritance observed only. Known finding: a send abandoned after a partial write corrupts the peer's stream.",
         "technique": "Lean 4 proof (composition of the Tx refinement, a pipe lemma and the Rx framing theorem; counterexample by kernel evaluation); end-to-end runs on real Unix sockets with both runtimes",
     },
@@ -107,7 +107,7 @@ TEXT = {
     "C17": {
         "level": "Machine-checked theorems parametric in growth step and limit: buffer capacity never exceeds the limit (inbound: every event sequence; outbound: every operation); a lone frame is "
                  "delivered iff its wire size is below the limit, for every growth step and read-size schedule, otherwise overflow with exactly `max` bytes buffered; an outbound message is accepted iff "
-                 "queued+len+1 <= limit, else refused with nothing queued or written. Boundary sweeps of the real code run at the hook-lowered limit against model and closed form.",
+                 "queued+len+1 <= limit, else refused with nothing queued or written. Boundary sweeps of the real code run at the hook-lowered limit against model and closed form, for lone frames and for frames behind a history of earlier, consumed frames (the verdict for a size must not depend on what the connection carried before).",
         "design_ref": "DESIGN.md §5 C17", "note": RX_NOTE + " " + TX_NOTE,
         "technique": "Lean 4 proof (capacity invariant, closed-form thresholds) on hand-written models with extracted constants; boundary-sweep correspondence run under the cfg hook",
     },
